@@ -326,6 +326,10 @@ func (w *World) registerIntrinsics() {
 		}
 		return TimeV{NS: e.clockLast}
 	})
+	w.reg(V+"TimeFormatDigits", func(e *Exec, fn *ssa.Function, a []Value) Value {
+		e.timeFmtDigits = true
+		return nil
+	})
 	w.reg(V+"FirstNow", func(e *Exec, fn *ssa.Function, a []Value) Value {
 		if e.clockFirst == nil {
 			return e.zeroTime()
